@@ -31,7 +31,7 @@ def prepare_shims(ctx):
     ctx.build_harness(tags="vshim")
 
 
-PREPARE = {"C08": prepare_vtime, "C20": prepare_shims, "C17": prepare_shims, "C02": prepare_shims, "C01": prepare_shims}
+PREPARE = {"C08": prepare_vtime, "C18": prepare_vtime, "C20": prepare_shims, "C17": prepare_shims, "C02": prepare_shims, "C01": prepare_shims}
 
 
 def seq_container(ctx, driver, trace_module, model_checks, depth, shards=8, extra_args=(), kf_controls=(),
@@ -181,8 +181,10 @@ def c15(ctx):
 
 @handler("C18")
 def c18(ctx):
+    # on the virtual clock (scratch copy with `time` redirected): RetryWithDelay's waits and the lifetime of
+    # Once's cache entry are exact
     return seq_container(ctx, "callcount", "CallCountTrace", [("CallCountMC", "CallCountMC.cfg")],
-                         depth=dict(quick=0, thorough=0), shards=1)
+                         depth=dict(quick=0, thorough=0), shards=1, prepare=prepare_vtime)
 
 
 @handler("C16")
